@@ -167,7 +167,8 @@ fn ins(k: &str, name: &str, params: Vec<Value>, qubits: Vec<Value>, mref: Option
 const CAL_NAMES: &[&str] = &["A", "B", "C", "D", "E"];
 
 /// a random expression over the calibration's parameter variable (if any)
-fn rexpr(r: &mut impl Rng, var: Option<&str>, grow: bool) -> Value {
+fn rexpr(r: &mut impl Rng, vars: &[&str], grow: bool) -> Value {
+    let var = vars.choose(r).copied();
     let base = match (var, r.gen_range(0..4)) {
         (Some(v), 0..=2) => ev(v),
         (_, 3) => json!({"t": "pi2"}),
@@ -185,7 +186,7 @@ fn rexpr(r: &mut impl Rng, var: Option<&str>, grow: bool) -> Value {
 type Head = (usize, &'static str, Vec<Value>, Vec<Value>);
 
 /// an invocation of `h` from a context with qubit variables `qs` and parameter variable `var`
-fn call_of(r: &mut impl Rng, h: &Head, qs: &[Value], var: Option<&str>, grow: bool) -> Value {
+fn call_of(r: &mut impl Rng, h: &Head, qs: &[Value], var: &[&str], grow: bool) -> Value {
     let qubits: Vec<Value> = h
         .3
         .iter()
@@ -205,7 +206,7 @@ fn call_of(r: &mut impl Rng, h: &Head, qs: &[Value], var: Option<&str>, grow: bo
 
 /// a random body instruction of a gate calibration with qubit variables `qs` and parameter variable `var`;
 /// `callees`: heads it may invoke (chosen so that the call graph is acyclic unless cycles are wanted)
-fn rbody_instr(r: &mut impl Rng, qs: &[Value], var: Option<&str>, callees: &[&Head], allow_declare: bool, grow: bool) -> Value {
+fn rbody_instr(r: &mut impl Rng, qs: &[Value], var: &[&str], callees: &[&Head], allow_declare: bool, grow: bool) -> Value {
     let q = |r: &mut dyn rand::RngCore| if qs.is_empty() || r.gen_bool(0.2) { qf(r.gen_range(0..3)) } else { qs.choose(r).unwrap().clone() };
     match r.gen_range(0..20) {
         0..=7 if !callees.is_empty() => {
@@ -245,9 +246,15 @@ pub fn random_program(r: &mut impl Rng, cyclic: bool, allow_declare: bool, max_b
     for k in 0..ncal {
         // several definitions may share a name (precedence matters); level = index into CAL_NAMES
         let level = r.gen_range(0..CAL_NAMES.len());
-        let params = match r.gen_range(0..10) {
-            0..=5 => vec![ev(["t", "u"][k % 2])],
-            6 | 7 => vec![json!({"t": "int", "n": r.gen_range(0..3)})],
+        // parameter lists of length 0..2, literals and variables in every order
+        let lit = |r: &mut dyn rand::RngCore| json!({"t": "int", "n": r.gen_range(0..3)});
+        let params = match r.gen_range(0..14) {
+            0..=3 => vec![ev(["t", "u"][k % 2])],
+            4 | 5 => vec![lit(r)],
+            6 | 7 => vec![lit(r), ev("t")],
+            8 | 9 => vec![ev("t"), lit(r)],
+            10 => vec![ev("t"), ev("u")],
+            11 => vec![ev("u"), ev("t")],
             _ => vec![],
         };
         let nq = r.gen_range(1..=2);
@@ -258,7 +265,8 @@ pub fn random_program(r: &mut impl Rng, cyclic: bool, allow_declare: bool, max_b
     let mut gcals = vec![];
     for h in &heads {
         let callees: Vec<&Head> = heads.iter().filter(|c| cyclic || c.0 > h.0).collect();
-        let var = h.2.first().filter(|p| p["t"] == "var").and_then(|p| p["v"].as_str());
+        let var: Vec<&str> = h.2.iter().filter(|p| p["t"] == "var").filter_map(|p| p["v"].as_str()).collect();
+        let var = &var[..];
         let qvars: Vec<Value> = h.3.iter().filter(|q| q["t"] == "var").cloned().collect();
         let nb = r.gen_range(1..=max_body);
         let body: Vec<Value> = (0..nb).map(|_| rbody_instr(r, &qvars, var, &callees, allow_declare, !cyclic)).collect();
@@ -278,12 +286,15 @@ pub fn random_program(r: &mut impl Rng, cyclic: bool, allow_declare: bool, max_b
                 2 => ins("Pragma", "LOAD-MEMORY", vec![], vec![], None, if r.gen_bool(0.6) { target } else { "other" }),
                 3 => ins("Capture", "ro", vec![json!({"t": "pi2"})], vec![qubit.clone()], Some(("other", 1)), ""),
                 _ => {
-                    // no MEASURE inside a measurement calibration (the statement does not decide whether its
-                    // target is a "use of the target name"); gate calibrations may measure, so in the cyclic
-                    // mode calls from here could reach a MEASURE again: allow calls only in the acyclic mode
-                    let mut i = rbody_instr(r, &qvars, None, &[], allow_declare, false);
-                    while i["k"] == "Measure" {
-                        i = rbody_instr(r, &qvars, None, &[], allow_declare, false);
+                    // A MEASURE inside a measurement calibration (recursion through measurements) only in the
+                    // cyclic mode, where nothing grows and the expansion therefore ends (with the result or
+                    // with the recursive-calibration error).  Its target is ro[..] or none, never the
+                    // calibration's target name (the statement does not decide whether a MEASURE into the
+                    // target name is a "use" of it).  In the cyclic mode it may also call gate calibrations.
+                    let callees: &[&Head] = if cyclic { &all } else { &[] };
+                    let mut i = rbody_instr(r, &qvars, &[], callees, allow_declare, false);
+                    while !cyclic && i["k"] == "Measure" {
+                        i = rbody_instr(r, &qvars, &[], &[], allow_declare, false);
                     }
                     i
                 }
@@ -295,9 +306,9 @@ pub fn random_program(r: &mut impl Rng, cyclic: bool, allow_declare: bool, max_b
     let ns = r.gen_range(1..=5);
     let src: Vec<Value> = (0..ns)
         .map(|_| {
-            let mut i = rbody_instr(r, &[], None, &all, false, true);
+            let mut i = rbody_instr(r, &[], &[], &all, false, true);
             while i["k"] == "Declare" {
-                i = rbody_instr(r, &[], None, &all, false, true);
+                i = rbody_instr(r, &[], &[], &all, false, true);
             }
             i
         })
